@@ -581,6 +581,13 @@ class EvalError(Exception):
 
 def evaluate(roots, env):
     """numeric (float) evaluation.  env: var name -> float/bool.  returns dict id -> value for all subterms"""
+    try:
+        return _evaluate(roots, env)
+    except OverflowError as e:
+        raise EvalError("overflow: %s" % (e,))
+
+
+def _evaluate(roots, env):
     val = {}
     for t in subterms(roots):
         op = t.op
